@@ -24,6 +24,22 @@ fn usage() -> ! {
     std::process::exit(2);
 }
 
+/// One pass of a check; Some(message) if the machinery failed.
+fn run_pass(ctx: &Ctx, id: &str) -> Option<String> {
+    match std::panic::catch_unwind(std::panic::AssertUnwindSafe(|| checks::run(ctx))) {
+        Ok(Ok(())) => None,
+        Ok(Err(e)) => {
+            eprintln!("MACHINERY-ERROR {}: {}", id, e);
+            Some(e)
+        }
+        Err(p) => {
+            let m = format!("harness panic: {}", util::panic_msg(&p));
+            eprintln!("MACHINERY-ERROR {}: {}", id, m);
+            Some(m)
+        }
+    }
+}
+
 fn main() {
     let args: Vec<String> = std::env::args().collect();
     if args.len() < 2 {
@@ -81,19 +97,34 @@ fn main() {
                 std::process::exit(2);
             }
             let seed = std::env::var("VERIF_SEED").ok().and_then(|s| s.parse::<u64>().ok()).unwrap_or(1);
-            let ctx = Ctx::new(&id, tier, seed);
             inproc::watchdog_identity(&id, tier.name(), seed);
-            let r = std::panic::catch_unwind(std::panic::AssertUnwindSafe(|| checks::run(&ctx)));
-            match r {
-                Ok(Ok(())) => {}
-                Ok(Err(e)) => {
-                    eprintln!("MACHINERY-ERROR {}: {}", id, e);
+            // Pass 1. If it records candidate violations, the whole check is run a second time in
+            // "patient" mode (the in-process harness pauses before every step of the event loop and
+            // wants three idle steps for quiescence, so that late kernel delivery of what the
+            // harness itself sent cannot masquerade as a lost datagram). Only what the second pass
+            // finds is reported: a defect of the code under test is there on both passes, an
+            // artefact of harness timing on a loaded machine is not.
+            let mut ctx = Ctx::new(&id, tier, seed);
+            let mut abort = run_pass(&ctx, &id);
+            let first = ctx.unlisted_count();
+            if first > 0 && std::env::var("VERIF_NO_CONFIRM").is_err() {
+                eprintln!("pass 1: {} candidate violation(s); confirming with a second pass", first);
+                let summary = ctx.candidate_summary();
+                inproc::set_patient(true);
+                ctx = Ctx::new(&id, tier, seed);
+                abort = run_pass(&ctx, &id);
+                ctx.cov("first_pass_candidates", serde_json::json!({"count": first, "groups": summary}));
+                if ctx.unlisted_count() == 0 {
+                    eprintln!("UNCONFIRMED property={}: {} candidate violation(s) of the first pass did not recur in the confirming pass (harness timing on a loaded machine); not reported", id, first);
+                }
+            }
+            if let Some(e) = abort {
+                // A machinery error is never a verdict; but witnesses recorded before it are: each
+                // is a concrete failing input/history with its own replay file.
+                if ctx.unlisted_count() == 0 {
                     std::process::exit(2);
                 }
-                Err(p) => {
-                    eprintln!("MACHINERY-ERROR {}: harness panic: {}", id, util::panic_msg(&p));
-                    std::process::exit(2);
-                }
+                ctx.cov("aborted_by_machinery_error", serde_json::json!(e));
             }
             let code = ctx.finish();
             std::process::exit(code);
